@@ -149,6 +149,16 @@ Proof.
   - apply IH; [exact H2|]. intros y Hy. apply Hd. now right.
 Qed.
 
+Lemma NoDup_app_inv {A} (l1 l2 : list A) :
+  NoDup (l1 ++ l2) -> NoDup l1 /\ NoDup l2 /\ (forall x, In x l1 -> In x l2 -> False).
+Proof.
+  induction l1 as [|x r IH]; cbn; intro H.
+  - split; [constructor|]. split; [exact H|]. intros ? [].
+  - inversion H as [|? ? Hx Hr]; subst. destruct (IH Hr) as [Ha [B C]]. split; [|split; [exact B|]].
+    + constructor; [|exact Ha]. intro Hi. apply Hx. apply in_or_app. now left.
+    + intros y [<-|Hy] Hy2; [apply Hx; apply in_or_app; now right|exact (C y Hy Hy2)].
+Qed.
+
 Lemma st_list_nodup d : NoDup (d_accepting d) -> NoDup (st_list d).
 Proof.
   intro Ha. unfold st_list. constructor.
